@@ -1178,3 +1178,60 @@ package core
 //@   ensures fed: forall i :: 0 <= i && i < len(agg.aggregations) ==> closed(aChans[agg.aggregations[i].Name]) && wr(aChans[agg.aggregations[i].Name]) == nonsig(in, len(in))
 //@   ensures sigelems: forall j :: 0 <= j && j < len(in) && tSignal(in[j]) ==> out[j - nonsig(in, j)] == in[j]
 //@   ensures fedelems: forall i, j :: 0 <= i && i < len(agg.aggregations) && 0 <= j && j < len(in) && !tSignal(in[j]) ==> aChans[agg.aggregations[i].Name][nonsig(in, j)] == in[j]
+
+// ---- C01/C02: the index lookup step (V().hasLabel(...) after the start rewrite), requests ----
+// For every input traveler, in input order, for every label of the step in list order, for
+// every id the graph's label scan yields in scan order: one request for that id carrying the
+// traveler. The step is only ever placed first in a pipeline, so its input carries no signal
+// (precondition); the request channel is closed at the end.
+//@ func (*LookupVertsIndex).Process$1
+//@   vars queryChan in l ctx t label id
+//@   property C01 C02 C06
+//@   option prelude=trav
+//@   option load=gdbi
+//@   nopanic
+//@   requires fresh: rd(in) == 0 && wr(queryChan) == 0 && !closed(queryChan) && in != queryChan && queryChan != nil && in != nil && in < alloc && queryChan < alloc
+//@   requires recv: l != nil && l.db != nil && soff(l.labels) >= 0
+//@   requires items: forall j :: 0 <= j && j < len(in) ==> in[j] != nil && !tSignal(in[j])
+//@   axiom l0: lsum(0) == 0
+//@   axiom lS: forall k :: 0 <= k && k < len(l.labels) ==> lsum(k + 1) == lsum(k) + lscanlen(l.db, l.labels[k])
+//@   axiom c0: cnt(in, 0) == 0
+//@   axiom cS: forall k :: 0 <= k ==> cnt(in, k + 1) == cnt(in, k) + lsum(len(l.labels))
+//@   loop 1 invariant pos: 0 <= rd(in) && rd(in) <= len(in) && !closed(queryChan) && wr(queryChan) == cnt(in, rd(in))
+//@   loop 1 invariant frame: freshonly("SH.Str")
+//@   loop 1 invariant refs: forall m :: 0 <= m && m < wr(queryChan) ==> queryChan[m].Ref != nil && !tSignal(queryChan[m].Ref)
+//@   loop 2 invariant pos: 0 < rd(in) && rd(in) <= len(in) && !closed(queryChan) && -1 <= rangeindex && rangeindex < len(l.labels) && t == in[rd(in) - 1] &&
+//@       wr(queryChan) == cnt(in, rd(in) - 1) + lsum(rangeindex + 1)
+//@   loop 2 invariant frame: freshonly("SH.Str")
+//@   loop 2 invariant refs: forall m :: 0 <= m && m < wr(queryChan) ==> queryChan[m].Ref != nil && !tSignal(queryChan[m].Ref)
+//@   loop 3 invariant pos: 0 < rd(in) && rd(in) <= len(in) && !closed(queryChan) && 0 <= rangeindex + 1 && rangeindex + 1 < len(l.labels) && t == in[rd(in) - 1] &&
+//@       rangechan != nil && rangechan != in && rangechan != queryChan && 0 <= rd(rangechan) && rd(rangechan) <= len(rangechan) && len(rangechan) == lscanlen(l.db, l.labels[rangeindex + 1]) &&
+//@       wr(queryChan) == cnt(in, rd(in) - 1) + lsum(rangeindex + 1) + rd(rangechan)
+//@   loop 3 invariant frame: freshonly("SH.Str")
+//@   loop 3 invariant refs: forall m :: 0 <= m && m < wr(queryChan) ==> queryChan[m].Ref != nil && !tSignal(queryChan[m].Ref)
+//@   loop 3 invariant ids: forall i :: 0 <= i && i < len(rangechan) ==> rangechan[i] == lscanid(l.db, l.labels[rangeindex + 1], i)
+//@   loop 3 invariant cur: forall i :: 0 <= i && i < rd(rangechan) ==> queryChan[cnt(in, rd(in) - 1) + lsum(rangeindex + 1) + i].ID == lscanid(l.db, l.labels[rangeindex + 1], i) &&
+//@       queryChan[cnt(in, rd(in) - 1) + lsum(rangeindex + 1) + i].Ref == in[rd(in) - 1]
+//@   ensures closed: closed(queryChan)
+//@   ensures drained: rd(in) == len(in) && wr(queryChan) == cnt(in, len(in))
+//@   ensures refs: forall m :: 0 <= m && m < wr(queryChan) ==> queryChan[m].Ref != nil && !tSignal(queryChan[m].Ref)
+
+// The index lookup step, answers: one output per answer of the graph, in order - the
+// requesting traveler moved (copy-on-step) to an element with the id, label and data of the
+// vertex found. The requests carry no signal (the first half's postcondition), and an
+// answer carries the traveler of one of the requests and, for such a traveler, a vertex
+// (assumed GraphInterface contract; proved for the embedded store under C03).
+//@ func (*LookupVertsIndex).Process$2
+//@   vars out l ctx queryChan v i
+//@   property C01 C02 C06
+//@   option prelude=trav
+//@   option load=gdbi
+//@   nopanic
+//@   requires fresh: wr(out) == 0 && !closed(out) && out != nil && queryChan != out && queryChan != nil && l != nil && l.db != nil
+//@   requires reqs: forall k :: 0 <= k && k < len(queryChan) ==> queryChan[k].Ref != nil && !tSignal(queryChan[k].Ref)
+//@   loop 1 invariant pos: rangechan != nil && rangechan != out && 0 <= rd(rangechan) && rd(rangechan) <= len(rangechan) && !closed(out) && wr(out) == rd(rangechan)
+//@   loop 1 invariant answers: forall k :: 0 <= k && k < len(rangechan) ==> rangechan[k].Ref != nil && !tSignal(rangechan[k].Ref) &&
+//@       rangechan[k].Vertex > 0 && rangechan[k].Vertex < alloc && rangechan[k].Vertex.ID == rangechan[k].ID
+//@   loop 1 invariant elems: forall k :: 0 <= k && k < rd(rangechan) ==> tCurrent(out[k]) > 0 && tCurrent(out[k]) < alloc && !tSignal(out[k]) &&
+//@       cast(tCurrent(out[k]), "*gdbi.DataElement").ID == rangechan[k].ID
+//@   ensures closed: closed(out)
